@@ -369,6 +369,16 @@ func (sc *SpecCtx) call(x *SExpr) Val {
 			sc.fail("visitedCount outside a range invariant")
 		}
 		return Val{T: tInt, C: []string{sc.arr("G|it|"+it.It.ID+"|count", "Int")}}
+	case "rangeCount": // rangeCount(n): number of keys the n-th sync.Map.Range of this function has handed to its callback (for postconditions)
+		n := sc.intLit(args[0])
+		if sc.fr == nil {
+			sc.fail("rangeCount outside a function")
+		}
+		nm := fmt.Sprintf("G|it|%s.range%d|count", sc.fr.fn.RelString(e.P.TPkg), n)
+		if _, ok := st.heap[nm]; !ok {
+			sc.fail("rangeCount(%d): Range %d has not been executed on this path", n, n)
+		}
+		return Val{T: tInt, C: []string{sc.arr(nm, "Int")}}
 	case "smValuesAre": // smValuesAre(m, T): every value stored in sync.Map m is a non-nil T (for every key, of any type)
 		m := sc.eval(args[0])
 		t := sc.resolveType(sc.typeArg(args[1]))
